@@ -411,7 +411,7 @@ def gen_fnmatch(rng, full):
             for fl in ((0, 1, 4, 5, 16, 2) if not full else (0, 1, 2, 4, 5, 16, 17, 8)):
                 ops.append("fnmatch %s %s %d" % (H(p), H(s), fl))
     # token patterns up to 6 tokens × subjects up to 6 (sampled)
-    n = 400000 if full else 40000
+    n = 1200000 if full else 40000
     subj_alpha = [b"a", b"b", b"/", b".", b"a", b"b", b"[", b"]", b"!", b"\\", b"*", b"?", b"A", b"B", b"-"]
     for _ in range(n):
         k = 1 + rng.below(6)
@@ -525,9 +525,12 @@ def run(ck):
         total += len(ops)
         for o in ops:
             seen.add(hash(o))
-        cases = [c for c in vf.chunks(ops, 500)]
-        for part in vf.chunks(cases, 400):
-            if ck.compare_cases(hcmd, dcmd, part, label=name):
+        # small cases keep shrinking cheap; a hanging/crashing implementation (the unrepaired
+        # cx_vasprintf formats garbage on the second pass) must not stall the run
+        cases = [c for c in vf.chunks(ops, 100)]
+        for part in vf.chunks(cases, 2000):
+            if ck.compare_cases(hcmd, dcmd, part, label=name, timeout=(60 if name == "fmt" else 600),
+                                max_failures=3):
                 failed = True
                 break
 
